@@ -3,7 +3,7 @@ import re
 CONFIG = dict(
     bin="c17",
     drv="drv_c17",
-    lean_modules=["MahfModel.Props.C17", "MahfModel.Props.C17Cool", "MahfModel.Props.C17Real"],
+    lean_modules=["MahfModel.Props.C17", "MahfModel.Props.C17Ties", "MahfModel.Props.C17Cool", "MahfModel.Props.C17Real"],
     namespaces=["MahfModel.Props.C17"],
     shrink_lists=["steps"],
     shrink=False,
@@ -28,14 +28,32 @@ CONFIG = dict(
           "observer: every acceptance (frame, not-worse => accepted) and every cooling (T' = alpha*T, nobody else "
           "touches T, once per pass), with the state's generator swapped for a SplitMix-backed scripted one before the first draw so "
           "that EVERY acceptance of the run is re-emitted as a prepared accept case with the exact word it consumed "
-          "(run-accept: exact decision); (6) accept-equal-inf / accept-inf: +inf objective values. Non-trivial = not a frame-error case and not a better-candidate case; distinct = "
+          "(run-accept: exact decision); (6) accept-equal-inf / accept-inf: +inf objective values; "
+          "(7) solutions are opaque — accept-same-*: every cell of grid (1) again with candidate and current encoding the SAME solution (equal tags 1 / 2 / 7, "
+          "7 also sits in the population below) but the cell's objective values (a re-evaluated / noisy measurement), draws k-1, k, k+1, 0, 1-2^-53; accept-frame "
+          "shapes with equal tags in the frame and below; a third of the freq cells with `(same 1)` (survivor told by its objective bits); run-accept cases carry "
+          "equal tags whenever the run's candidate encodes the current solution; "
+          "(8) accept-tie / accept-worse-extreme / accept-better-extreme: 10 pairs of numerically equal objective values (-0/+0, +0/-0, +0/+0, -0/-0, +inf/+inf, "
+          "1, -5, 1e300, 5e-324, -1e-310) and 12 worse / better pairs (margins 5e-324 .. 2e300, +inf, across the signed zeros) x T in {0, 5e-324, 1e-310, "
+          "2.2e-308, 1e-300, 1e-12, 1, 1e12, 1e300, f64::MAX, +inf} x draws {0, 1/2, 1-2^-53, around the threshold} x {distinct, equal} solutions; freq cells "
+          "for signed-zero ties and worse / better pairs at T in {0, 5e-324, 1e-310, 1e300, +inf}; "
+          "(9) accept-chain: sequences of 1..10 passes on ONE state (each step: Temperature := its T, push the candidate population, execute the real acceptance "
+          "with a fresh scripted generator holding the step's word; the survivor is the next step's current): the same solution measured five times better / "
+          "worse, signed zeros alternating between two solutions, mixed ties / +inf, each at the 11 temperatures x 3 draws; 300 (quick) / 3000 (thorough) random "
+          "chains (1..3 solutions, objective values noisy around a level or from a pool with ties, -0, +inf, 5e-324; T constant / cooled by 0.5, 0.9, 0, 1e-200 / "
+          "extreme; words random or at the threshold), with and without populations below; "
+          "(10) run-noisy: the generic `sa::sa` template (real acceptance, GeometricCooling, Loop, evaluation) on a problem whose k-th evaluation returns the "
+          "k-th value of a scripted sequence (refining, degrading, noisy, signed zeros, few values with ties and +inf) with a generation step that never (real "
+          "`Noop`) / sometimes / always changes the solution, t_0 in {1, 100, 1e-3, 0, +inf, 1e-300}, alpha in {0.9, 0.5, 0, 0.99}: oracle of (5), every acceptance "
+          "re-emitted as a prepared case. Non-trivial = not a frame-error case and not a better-candidate case; distinct = "
           "distinct input line."),
-    nontrivial=lambda inp: (inp.startswith("(accept") and "(stack ((2" in inp) or inp.startswith("(freq") or inp.startswith("(cool") or inp.startswith("(coolprog") or inp.startswith("(run"),
+    nontrivial=lambda inp: (inp.startswith("(accept") and ("(stack ((2" in inp or "(stack ((1" in inp or "(stack ((7" in inp)) or inp.startswith("(chain") or inp.startswith("(freq") or inp.startswith("(cool") or inp.startswith("(coolprog") or inp.startswith("(run"),
     trusted_base=[
         "Lean's Float.exp and Rust's f64::exp both call the platform libm (decisions are compared allowing one ulp of exp; "
         "on this platform they agree bit for bit on every generated case)",
         "rand 0.8.8: gen::<f64>() = (next_u64() >> 11) * 2^-53 (read off the vendored source; re-checked by the scripted-word cases)",
-        "the population stack is represented head = top; individuals are (tag, objective) pairs",
+        "the population stack is represented head = top; individuals are (tag, objective) pairs; equal tags = equal solutions (u64 encoding)",
+        "run-noisy: the scripted objective sequence and the Move generation component are harness code; Loop / evaluation / Noop are the real ones",
         "cool-prog: the recorder component the harness places behind every cooling component reads the cell faithfully; "
         "Loop / Scope / LessThanN / State registry are the real ones (their own semantics are C03 / C10 / C01 territory)"],
     assumptions=["SplitMix64-seeded generator; theorems are in exact (ordered-field) arithmetic with an abstract exp "
@@ -53,7 +71,14 @@ CONFIG.update(
                 "executions (cooling_program_effect), k executions under an unchanged counter give v*alpha^k (cooling_repeated_same_iteration), "
                 "the counters are irrelevant for a block of coolings (cooling_ignores_iterations), a loop over a block of several coolings "
                 "applies every one in every pass (cooling_loop_power); +inf candidate never / +inf current always replaced "
-                "(accept_inf_candidate, carrier Ext F); the number "
+                "(accept_inf_candidate, carrier Ext F); the acceptance is blind to solutions: renaming the solutions of the whole stack by any "
+                "function commutes with the execution (accept_solution_blind, every carrier), a frame whose two individuals encode the same solution "
+                "ends with that solution carrying the objective the rule selects (accept_same_solution); a sequence of passes on one state leaves "
+                "the fold of the single decisions, each against the previous survivor (accept_chain_survivor), so measurements that never get worse end with "
+                "the last one (chain_not_worse_last_wins); on the carrier Iz F (ordered field + signed zero, infinities, NaN with the IEEE rules for -, /, <, <=) "
+                "numerically equal values (-0/+0, +inf/+inf) replace each other at EVERY temperature (accept_numeric_tie), at T = +-0 the probability term of a tie "
+                "is NaN so only the comparison can accept it (tie_probability_nan_at_zero_temperature), a worse candidate is never accepted at T = +0 and always at "
+                "T = +inf (accept_worse_zero_temperature, accept_worse_infinite_temperature: the limits are attained); the number "
                 "of 64-bit generator words that accept is ceil(p*2^53)*2^11 (probability). ExpSpec is instantiated with "
                 "Real.exp. The model is tied to /repo by running the real components on the grid with scripted draws "
                 "around the decision threshold (K exact), seeded frequencies, cooling programs (K bit-exact, O per execution) and template runs (O)."),
@@ -61,11 +86,17 @@ CONFIG.update(
                 "(cur-cand)/T and exp is not modelled in the theorems (partial: rounding); the compiled model uses the same "
                 "IEEE operations as the code. Equal +inf objective values (p = exp(inf - inf) = NaN) are accepted by the `<=` "
                 "short-circuit (fixed in /repo ca95ba5; theorem accept_equal_inf on the IEEE-like carrier Ext F; the +inf/+inf "
-                "cases are generated on every run). T <= 0 is outside the quantifier. The number of generator words consumed is compared "
+                "cases are generated on every run). The oracle judges temperatures +0 <= T <= +inf (T = 0 is what alpha = 0 or underflow leaves, +inf a legal t_0): "
+                "a candidate whose objective is numerically <= the current one (IEEE comparison: -0 = +0, +inf <= +inf) must survive at every such T; a worse one "
+                "iff u < exp((cur - cand)/T) evaluated in IEEE arithmetic (T = +0: exp(-inf) = 0, never; T = +inf: exp(-0) = 1, always), within one ulp of exp; "
+                "where that formula is NaN (+inf candidate at T = +inf) and for T < 0, T = -0, NaN temperatures the oracle is silent. The survivor is identified "
+                "as a whole individual (solution AND objective bits), so with equal solutions a stale objective is a wrong survivor; an individual identical "
+                "to the current one in both counts as either. The number of generator words consumed is compared "
                 "only where the decision can depend on the draw: for a candidate that is not worse, or p = 0 / p >= 1 / NaN after rounding, "
                 "both 0 and 1 draws are accepted as legal witnesses (the property does not speak about the draw count). In the cooling "
                 "programs the f64 cells live in the root scope and `setIter` stands for any component that re-inserts Iterations; loop "
                 "termination of the model is by step budget (cooling_loop_power is a statement about loop runs that end ok, satisfiable by "
                 "example; cooling_program_effect holds for every outcome; cooling_repeated_same_iteration proves termination itself). Acceptance `init` "
-                "(Temperature := t_0) and the template order are observed in the runs only, not modelled."),
+                "(Temperature := t_0) and the template order are observed in the runs only, not modelled. The signed-zero carrier Iz F is exact "
+                "(no rounding, no subnormals): the subnormal-temperature cases are covered by the compiled Float model and the oracle only."),
 )
